@@ -259,6 +259,24 @@ def _reader_pins_first_tempo_at_zero(ctx, game: str) -> Tuple[bool, str]:
                 off = kw.get("offset", kw.get("#0"))
                 if isinstance(off, ast.Constant) and off.value == 0:
                     return True, "O2JMap.read_pkgs inserts the header tempo at offset 0"
+            # the same list written as a display: [O2JBpm(offset=0, ..), *bpms]  /  [O2JBpm(offset=0, ..)] + bpms
+            head = None
+            if isinstance(n, ast.List) and len(n.elts) >= 2 and isinstance(n.elts[1], ast.Starred) and not isinstance(n.elts[0], ast.Starred):
+                head = n.elts[0]
+            if isinstance(n, ast.BinOp) and isinstance(n.op, ast.Add) and isinstance(n.left, ast.List) and len(n.left.elts) == 1:
+                head = n.left.elts[0]
+            if head is not None:
+                kw = ctor_kwargs(head) or {}
+                off = kw.get("offset", kw.get("#0"))
+                if isinstance(off, ast.Constant) and off.value == 0 and isinstance(head, ast.Call) and call_name(head).endswith("Bpm"):
+                    return True, "O2JMap.read_pkgs puts the header tempo at offset 0 in front of the tempo list"
+        # a tempo point at the constant 0 is built but where it goes is not one of the forms above: no verdict
+        for n in ast.walk(fn.node):
+            if isinstance(n, ast.Call) and call_name(n).endswith("Bpm"):
+                kw = ctor_kwargs(n) or {}
+                off = kw.get("offset", kw.get("#0"))
+                if isinstance(off, ast.Constant) and off.value == 0:
+                    return None, "O2JMap.read_pkgs builds a tempo point at 0; where it is put in the tempo list is not followed"
         return False, "O2JMap.read_pkgs no longer pins the first tempo point at 0"
     return False, f"the {game} reader does not pin the first tempo point"
 
@@ -287,6 +305,8 @@ def rule_r4(ctx) -> List[R.Inst]:
             pinned, why = _reader_pins_first_tempo_at_zero(ctx, conv.src_game)
             if pinned:
                 insts.append(R.ok(rid, key, conv.file, st.lineno, idiom=f"offset = 0: {why}"))
+            elif pinned is None:
+                insts.append(R.undec(rid, key, conv.file, st.lineno, why))
             else:
                 insts.append(R.viol(rid, key, conv.file, st.lineno,
                                     f"offset is the constant 0 but a {conv.src_game} chart's first tempo point can be anywhere: the "
